@@ -35,12 +35,12 @@ func (l *UnwrapAggPlanner) addValue(ctx *shared.PlannerContext, entry *shared.Lo
 			stream.values[idx+1] = 1
 		}
 	case "min_over_time":
-		if stream.values[idx] < entry.Value || stream.values[idx+1] == 0 {
+		if stream.values[idx] > entry.Value || stream.values[idx+1] == 0 {
 			stream.values[idx] = entry.Value
 			stream.values[idx+1] = 1
 		}
 	case "first_over_time":
-		if stream.values[idx] == 0 {
+		if stream.values[idx+1] == 0 {
 			stream.values[idx] = entry.Value
 			stream.values[idx+1] = 1
 		}
